@@ -257,9 +257,13 @@ class C08(ValCheck):
             x = vals[src]
             _, h, w, c = x["shape"]
             kind = r.choice(["CONV_2D", "CONV_2D", "DEPTHWISE_CONV_2D"])
-            k = r.choice([(1, 1), (3, 3), (3, 1), (5, 5)])
+            # kernels beyond 4 rows/columns and asymmetric dilation: the 8x8 sub-kernel decomposition of the stream depends on both
+            k = r.choice([(1, 1), (3, 3), (3, 1), (5, 5), (1, 7), (7, 1), (6, 2), (2, 5), (7, 7), (8, 8)])
             oc = r.choice([8, 16, 32, 64, 96, 128, 200]) if kind == "CONV_2D" else c
-            L = dict(op=kind, k=list(k), stride=list(r.choice([(1, 1), (1, 1), (2, 2)])), dil=list(r.choice([(1, 1), (1, 1), (2, 2)])), pad="SAME",
+            if k[0] * k[1] * c * oc > 400000:
+                oc = 8 if kind == "CONV_2D" else c
+            L = dict(op=kind, k=list(k), stride=list(r.choice([(1, 1), (1, 1), (2, 2), (1, 2), (3, 3)])),
+                     dil=list(r.choice([(1, 1), (1, 1), (2, 2), (2, 1), (1, 2)])), pad="SAME",
                      act=r.choice(["NONE", "RELU", "RELU6"]), q=list(netgen._rand_q(r, dtype)), per_axis=dtype == "int8" and r.random() < 0.5,
                      wstyle=r.choice(["uniform", "sparse", "small", "extreme"]), wscale=netgen.f32(r.choice([0.002, 0.01])), bias=True, seed=r.randrange(1 << 30))
             if kind == "CONV_2D":
